@@ -179,4 +179,221 @@ theorem inBBox_of_pip_inclB (p v : Pt) (r : List Pt) (h : pointInRing p (v :: r)
     rw [hin] at this
     exact absurd this (by simp)
 
+/-! ## crossing parity along axis-parallel segments that avoid the edges (any ring) -/
+
+/-- an affine function without a zero on `[0, 1]` has the same sign at both ends -/
+theorem affine_same_sign {f0 f1 : Rat} (h : ∀ s : Rat, 0 ≤ s → s ≤ 1 → f0 + s * (f1 - f0) ≠ 0) :
+    (0 < f0 ↔ 0 < f1) := by
+  constructor
+  · intro hp
+    by_contra hn
+    rw [not_lt] at hn
+    obtain ⟨l, l0, l1, hl⟩ := exists_lambda (a := f1) (b := f0) (X := 0) hn hp.le
+    apply h (1 - l) (by linarith) (by linarith)
+    linear_combination hl
+  · intro hp
+    by_contra hn
+    rw [not_lt] at hn
+    obtain ⟨l, l0, l1, hl⟩ := exists_lambda (a := f0) (b := f1) (X := 0) hn hp.le
+    exact h l l0 l1 hl
+
+theorem onEdge_right_end (e : Edge) : onEdge e.2 e = true := by
+  have := onEdge_endpoint_left (flipE e)
+  rwa [onEdge_flip] at this
+
+/-- the vertical segment `{x} × [y, y']` has no point on the edge -/
+def VAvoid (x y y' : Rat) (e : Edge) : Prop :=
+  ∀ Y : Rat, y ≤ Y → Y ≤ y' → onEdge ((x, Y) : Pt) e = false
+
+theorem pcross_vert_affine (e : Edge) (x Y1 Y2 s : Rat) :
+    pcross e ((x, Y1 + s * (Y2 - Y1)) : Pt) =
+      pcross e ((x, Y1) : Pt) + s * (pcross e ((x, Y2) : Pt) - pcross e ((x, Y1) : Pt)) := by
+  unfold pcross; ring
+
+theorem vert_ne_zero {x y y' : Rat} {e : Edge} (hup : e.1.2 < e.2.2) (hav : VAvoid x y y' e) {Y : Rat}
+    (h1 : e.1.2 ≤ Y) (h2 : Y ≤ e.2.2) (h3 : y ≤ Y) (h4 : Y ≤ y') : pcross e ((x, Y) : Pt) ≠ 0 := by
+  intro h0
+  have hoff := hav Y h3 h4
+  rcases lt_or_eq_of_le h2 with hlt | heq
+  · rw [onEdge_of_line h0 (Or.inr ⟨h1, hlt⟩)] at hoff
+    exact absurd hoff (by simp)
+  · have hx : x = e.2.1 := by
+      unfold pcross at h0
+      simp only at h0
+      rw [heq] at h0
+      have : (e.2.2 - e.1.2) * (e.2.1 - x) = 0 := by linear_combination h0
+      rcases mul_eq_zero.mp this with h | h <;> linarith
+    have : ((x, Y) : Pt) = e.2 := Prod.ext hx heq
+    rw [this, onEdge_right_end] at hoff
+    exact absurd hoff (by simp)
+
+theorem vert_same_sign {x y y' : Rat} {e : Edge} (hup : e.1.2 < e.2.2) (hav : VAvoid x y y' e) {Y1 Y2 : Rat}
+    (a1 : e.1.2 ≤ Y1) (a2 : Y1 ≤ e.2.2) (a3 : y ≤ Y1) (a4 : Y1 ≤ y')
+    (b1 : e.1.2 ≤ Y2) (b2 : Y2 ≤ e.2.2) (b3 : y ≤ Y2) (b4 : Y2 ≤ y') :
+    (0 < pcross e ((x, Y1) : Pt) ↔ 0 < pcross e ((x, Y2) : Pt)) := by
+  apply affine_same_sign
+  intro s s0 s1
+  rw [← pcross_vert_affine]
+  have hb := lambda_between (a := Y1) (b := Y2) s0 s1
+  apply vert_ne_zero hup hav <;> rcases hb with ⟨h, h'⟩ | ⟨h, h'⟩ <;> linarith
+
+/-- the vertex lies in the band `y < · ≤ y'` and strictly east of the vertical segment -/
+def bandE (x y y' : Rat) (v : Pt) : Bool := decide (y < v.2) && decide (v.2 ≤ y') && decide (x < v.1)
+
+/-- **one upward edge, vertical move**: the edge's contribution to the crossing count changes exactly
+    when one of its end points is in the band east of the segment -/
+theorem vert_up {x y y' : Rat} (hyy : y ≤ y') {e : Edge} (hup : e.1.2 < e.2.2) (hav : VAvoid x y y' e) :
+    (crossesRay ((x, y') : Pt) e != crossesRay ((x, y) : Pt) e) = (bandE x y y' e.1 != bandE x y y' e.2) := by
+  have hA : x < e.1.1 ↔ 0 < pcross e ((x, e.1.2) : Pt) := by
+    have : pcross e ((x, e.1.2) : Pt) = (e.2.2 - e.1.2) * (e.1.1 - x) := by unfold pcross; ring
+    rw [this, mul_pos_iff_of_pos_left (by linarith), sub_pos]
+  have hB : x < e.2.1 ↔ 0 < pcross e ((x, e.2.2) : Pt) := by
+    have : pcross e ((x, e.2.2) : Pt) = (e.2.2 - e.1.2) * (e.2.1 - x) := by unfold pcross; ring
+    rw [this, mul_pos_iff_of_pos_left (by linarith), sub_pos]
+  have hS := @vert_same_sign x y y' e hup hav
+  unfold crossesRay bandE
+  simp only [gt_iff_lt, hup, decide_true, beq_true, hA, hB]
+  rcases le_or_gt e.1.2 y with ha | ha
+  · -- first end point at or below the segment's foot
+    have na : ¬ y < e.1.2 := not_lt.mpr ha
+    have na' : ¬ y' < e.1.2 := not_lt.mpr (le_trans ha hyy)
+    rcases le_or_gt e.2.2 y with hb | hb
+    · have nb : ¬ y < e.2.2 := not_lt.mpr hb
+      have nb' : ¬ y' < e.2.2 := not_lt.mpr (le_trans hb hyy)
+      simp [na, na', nb, nb']
+    · rcases le_or_gt e.2.2 y' with hb' | hb'
+      · have nb' : ¬ y' < e.2.2 := not_lt.mpr hb'
+        have := hS (Y1 := y) (Y2 := e.2.2) ha hb.le (le_refl _) hyy hup.le (le_refl _) hb.le hb'
+        simp [na, na', hb, nb', hb', this]
+      · have := hS (Y1 := y) (Y2 := y') ha hb.le (le_refl _) hyy (le_trans ha hyy) hb'.le hyy (le_refl _)
+        have nb'' : ¬ e.2.2 ≤ y' := not_le.mpr hb'
+        simp [na, na', hb, hb', nb'', this]
+  · rcases le_or_gt e.1.2 y' with ha' | ha'
+    · have na' : ¬ y' < e.1.2 := not_lt.mpr ha'
+      have hb : y < e.2.2 := lt_trans ha hup
+      rcases le_or_gt e.2.2 y' with hb' | hb'
+      · have nb' : ¬ y' < e.2.2 := not_lt.mpr hb'
+        have := hS (Y1 := e.1.2) (Y2 := e.2.2) (le_refl _) hup.le ha.le ha' hup.le (le_refl _) hb.le hb'
+        simp [ha, ha', na', hb, hb', nb', this]
+      · have nb'' : ¬ e.2.2 ≤ y' := not_le.mpr hb'
+        have := hS (Y1 := e.1.2) (Y2 := y') (le_refl _) hup.le ha.le ha' ha' hb'.le hyy (le_refl _)
+        simp [ha, ha', na', hb, hb', nb'', this]
+    · have hb' : y' < e.2.2 := lt_trans ha' hup
+      have hb : y < e.2.2 := lt_of_le_of_lt hyy hb'
+      have na'' : ¬ e.1.2 ≤ y' := not_le.mpr ha'
+      have nb'' : ¬ e.2.2 ≤ y' := not_le.mpr hb'
+      simp [ha, ha', hb, hb', na'', nb'']
+
+theorem bandE_horizontal {x y y' : Rat} {e : Edge} (hh : e.1.2 = e.2.2) (hav : VAvoid x y y' e) :
+    bandE x y y' e.1 = bandE x y y' e.2 := by
+  unfold bandE
+  rw [hh]
+  by_cases h1 : y < e.2.2
+  · by_cases h2 : e.2.2 ≤ y'
+    · have hoff := hav e.2.2 h1.le h2
+      have hside : (x < e.1.1 ↔ x < e.2.1) := by
+        by_contra hc
+        have hon : onEdge ((x, e.2.2) : Pt) e = true := by
+          unfold onEdge pcross minR maxR
+          simp only [hh, sub_self, mul_zero, zero_mul, decide_true, Bool.true_and, Bool.and_eq_true,
+            decide_eq_true_eq, le_refl, if_true, and_true]
+          by_cases hle : e.1.1 ≤ e.2.1
+          · simp only [hle, if_true]
+            constructor <;> by_contra hn <;> rw [not_le] at hn <;> apply hc <;> constructor <;> intro _ <;> linarith
+          · simp only [hle, if_false]
+            rw [not_le] at hle
+            constructor <;> by_contra hn <;> rw [not_le] at hn <;> apply hc <;> constructor <;> intro _ <;> linarith
+        rw [hoff] at hon
+        exact absurd hon (by simp)
+      simp [h1, h2, hside]
+    · simp [h1, h2]
+  · simp [h1]
+
+theorem vAvoid_flip {x y y' : Rat} {e : Edge} (hav : VAvoid x y y' e) : VAvoid x y y' (flipE e) := by
+  intro Y h1 h2
+  rw [onEdge_flip]
+  exact hav Y h1 h2
+
+/-- **one edge, vertical move** (any edge) -/
+theorem vert_edge {x y y' : Rat} (hyy : y ≤ y') (e : Edge) (hav : VAvoid x y y' e) :
+    (crossesRay ((x, y') : Pt) e != crossesRay ((x, y) : Pt) e) = (bandE x y y' e.1 != bandE x y y' e.2) := by
+  rcases lt_trichotomy e.1.2 e.2.2 with h | h | h
+  · exact vert_up hyy h hav
+  · rw [bandE_horizontal h hav]
+    unfold crossesRay
+    simp [h]
+  · have := vert_up hyy (e := flipE e) h (vAvoid_flip hav)
+    rw [crossesRay_flip _ e (hav y' hyy (le_refl _)), crossesRay_flip _ e (hav y (le_refl _) hyy)] at this
+    rw [this]
+    simp only [flipE]
+    exact Bool.xor_comm _ _
+
+theorem any_onEdge_false {p : Pt} {es : List Edge} (h : ∀ e ∈ es, onEdge p e = false) :
+    es.any (onEdge p) = false := by
+  rw [List.any_eq_false]
+  intro e he
+  rw [h e he]; simp
+
+/-- **vertical move, whole ring**: the even–odd answer is the same at both ends of a vertical segment
+    that meets no edge (the per-edge changes pair up along the closed walk: `parity_path`) -/
+theorem insideEO_vert (v : Pt) (r : List Pt) {x y y' : Rat} (hyy : y ≤ y')
+    (hav : ∀ e ∈ ringEdges (v :: r), VAvoid x y y' e) :
+    insideEO ((x, y) : Pt) (ringEdges (v :: r)) = insideEO ((x, y') : Pt) (ringEdges (v :: r)) := by
+  have hsum := countP_xor_parity (crossesRay ((x, y') : Pt)) (crossesRay ((x, y) : Pt))
+    (fun e => bandE x y y' e.1 != bandE x y y' e.2) (ringEdges (v :: r))
+    (fun e he => vert_edge hyy e (hav e he))
+  have heven : (ringEdges (v :: r)).countP (fun e => bandE x y y' e.1 != bandE x y y' e.2) % 2 = 0 := by
+    rw [ringEdges_eq_pathEdges_closeUp]
+    have hcl : closeUp (v :: r) = v :: (r ++ [v]) := by simp [closeUp]
+    rw [hcl, parity_path (bandE x y y') (r ++ [v]) v]
+    have : (v :: (r ++ [v])).getLast (by simp) = v := by simp
+    rw [this]; simp
+  have h1 := any_onEdge_false (p := (x, y)) (fun e he => hav e he y (le_refl _) hyy)
+  have h2 := any_onEdge_false (p := (x, y')) (fun e he => hav e he y' hyy (le_refl _))
+  unfold insideEO
+  rw [h1, h2]
+  have : (ringEdges (v :: r)).countP (crossesRay ((x, y) : Pt)) % 2 =
+      (ringEdges (v :: r)).countP (crossesRay ((x, y') : Pt)) % 2 := by omega
+  rw [this]
+
+/-- **one edge, horizontal move**: the contribution of an edge does not change along a horizontal
+    segment that has no point on it -/
+theorem horiz_edge {x x' y : Rat} (e : Edge)
+    (hav : ∀ s : Rat, 0 ≤ s → s ≤ 1 → onEdge ((x + s * (x' - x), y) : Pt) e = false) :
+    crossesRay ((x, y) : Pt) e = crossesRay ((x', y) : Pt) e := by
+  unfold crossesRay
+  by_cases hst : (decide (e.1.2 > y) != decide (e.2.2 > y)) = true
+  · have hrange : (e.2.2 ≤ y ∧ y < e.1.2) ∨ (e.1.2 ≤ y ∧ y < e.2.2) := by
+      by_cases h1 : e.1.2 > y <;> by_cases h2 : e.2.2 > y <;> simp [h1, h2] at hst
+      · exact Or.inl ⟨not_lt.mp h2, h1⟩
+      · exact Or.inr ⟨not_lt.mp h1, h2⟩
+    have hsign : (0 < pcross e ((x, y) : Pt) ↔ 0 < pcross e ((x', y) : Pt)) := by
+      apply affine_same_sign
+      intro s s0 s1 h0
+      have haff : pcross e ((x + s * (x' - x), y) : Pt) =
+          pcross e ((x, y) : Pt) + s * (pcross e ((x', y) : Pt) - pcross e ((x, y) : Pt)) := by
+        unfold pcross; ring
+      rw [← haff] at h0
+      have := onEdge_of_line h0 hrange
+      rw [hav s s0 s1] at this
+      exact absurd this (by simp)
+    simp only [gt_iff_lt] at hst ⊢
+    simp only [hst, Bool.true_and]
+    by_cases hg : 0 < pcross e ((x, y) : Pt)
+    · have := hsign.mp hg; simp [hg, this]
+    · have : ¬ 0 < pcross e ((x', y) : Pt) := fun h => hg (hsign.mpr h)
+      simp [hg, this]
+  · have : (decide (e.1.2 > y) != decide (e.2.2 > y)) = false := by simpa using hst
+    simp only [this, Bool.false_and]
+
+theorem insideEO_horiz (es : List Edge) {x x' y : Rat}
+    (hav : ∀ e ∈ es, ∀ s : Rat, 0 ≤ s → s ≤ 1 → onEdge ((x + s * (x' - x), y) : Pt) e = false) :
+    insideEO ((x, y) : Pt) es = insideEO ((x', y) : Pt) es := by
+  have h1 : es.any (onEdge ((x, y) : Pt)) = false := any_onEdge_false (fun e he => by
+    have := hav e he 0 (le_refl _) (by norm_num); simpa using this)
+  have h2 : es.any (onEdge ((x', y) : Pt)) = false := any_onEdge_false (fun e he => by
+    have := hav e he 1 (by norm_num) (le_refl _); simpa using this)
+  unfold insideEO
+  rw [h1, h2, List.countP_congr (fun e he => by rw [horiz_edge e (hav e he)])]
+
 end GV.FloodLat
